@@ -143,8 +143,21 @@ func guarded(what string, n int, f func()) (ds []ev.Discrepancy) {
 	if err := lspx.Guard(f); err != nil {
 		ds = append(ds, ev.D("c06.panic", "%s: %v", what, err))
 	}
-	if used := cpuNow() - c0; used > c06Budget(n) {
-		ds = append(ds, ev.D("c06.time", "%s used %v of CPU on %d bytes (budget %v = 0.5 s + 20 us per byte)", what, used, n, c06Budget(n)))
+	if used := cpuNow() - c0; used > c06Budget(n) && len(ds) == 0 {
+		// the process' CPU time also counts the collector and whatever else runs beside the request:
+		// time that belongs to the input is there again when the same call is made again
+		// (only for a modest excess: a call that is slow once and then answered from a cache must
+		// not be excused by its repetitions)
+		for rep := 0; rep < 2 && used > c06Budget(n) && used <= 4*c06Budget(n); rep++ {
+			c1 := cpuNow()
+			_ = lspx.Guard(f)
+			if again := cpuNow() - c1; again < used {
+				used = again
+			}
+		}
+		if used > c06Budget(n) {
+			ds = append(ds, ev.D("c06.time", "%s used %v of CPU on %d bytes (least of up to three calls; budget %v = 0.5 s + 20 us per byte)", what, used, n, c06Budget(n)))
+		}
 	}
 	return ds
 }
